@@ -166,6 +166,7 @@ enum { SC_NEVER, SC_EMPTY, SC_SHORT, SC_NUL, SC_SLACK, SC_RESERVED, SC_N };
 
 /* raw (caller-supplied) strings; 'a','b','c' stand for the three alphabet characters */
 #define NRAW 12
+#define NVARIANTS 2         /* character alphabets, see string_body.h */
 #define NRAW_SHORT 10
 static const char *const rawtmpl[NRAW] = {
     "", "a", "b", "c", "ab", "bc", "ca", "abc", "abca", "cc",
@@ -240,13 +241,17 @@ static const struct vex w_model = { w_create, w_destroy, w_apply, w_sig, w_nontr
 /* what: 0 = one object only (the other stays untouched), single-object ops
  *       1 = two objects, generating subset + the ops that involve both objects
  *       2 = two objects, everything */
-struct cscope { int maxlen, nchars, grow, what, nslices; uint64_t max_states; };
+struct cscope { int maxlen, nchars, grow, what, nslices; uint64_t max_states; int variant; };
 static const struct cscope quick_scopes[] = {
     { 4, 3, 0, 0, 4, 100000 },      /* one object, lengths 0..4 over 3 characters */
     { 4, 2, 1, 0, 4, 100000 },      /* one object, 2 characters + NUL via resize */
     { 3, 3, 0, 1, 8, 100000 },      /* all pairs of strings of length 0..3 */
     { 3, 2, 1, 1, 8, 100000 },
     { 2, 3, 1, 2, 4, 100000 },      /* pairs of length 0..2 incl. NUL, every op */
+    /* alphabet variant 1: top-bit bytes / WCHAR_MAX and a negative wchar_t */
+    { 3, 3, 0, 0, 2, 100000, 1 },
+    { 3, 2, 1, 0, 2, 100000, 1 },
+    { 2, 3, 0, 2, 4, 100000, 1 },
 };
 static const struct cscope thorough_scopes[] = {
     { 5, 3, 0, 0, 8, 400000 },
@@ -255,6 +260,10 @@ static const struct cscope thorough_scopes[] = {
     { 4, 2, 1, 1, 8, 400000 },
     { 3, 3, 0, 2, 16, 400000 },     /* pairs of length 0..3, every op in every state */
     { 3, 2, 1, 2, 16, 400000 },
+    { 4, 3, 0, 0, 8, 400000, 1 },
+    { 4, 2, 1, 0, 8, 400000, 1 },
+    { 3, 3, 0, 1, 8, 400000, 1 },
+    { 3, 2, 1, 2, 16, 400000, 1 },
 };
 static const struct cscope *scopes;
 static int nscopes, nclosure;
@@ -355,13 +364,14 @@ static void run_closure(int ci)
     for (k = 0; k < nscopes && si >= scopes[k].nslices; k++) si -= scopes[k].nslices;
     s = &scopes[k]; slice = si;
     g_maxlen = (size_t)s->maxlen; g_allow_grow = s->grow; g_refcap = 16;
+    n_set_variant(s->variant); w_set_variant(s->variant);
     n = gen_alphabet(s, al);
     nfull = full_alphabet(s, full);
     for (i = slice; i < nfull; i += s->nslices) al[n++] = full[i];
-    vrt_case_note("closure %s %s maxlen=%d chars=%d%s slice=%d/%d alphabet=%d (of %d)", wide ? "wide" : "narrow",
+    vrt_case_note("closure %s %s charset=%d maxlen=%d chars=%d%s slice=%d/%d alphabet=%d (of %d)", wide ? "wide" : "narrow",
                   s->what == 0 ? "one object" : s->what == 1 ? "pairs, two-object ops" : "pairs, all ops",
-                  s->maxlen, s->nchars, s->grow ? "+NUL" : "", slice, s->nslices, n, nfull);
-    vex_closure(wide ? &w_model : &n_model, 0x100 * (s->maxlen * 16 + s->nchars * 2 + s->grow) + wide, al, n, s->max_states, 60, &r);
+                  s->variant, s->maxlen, s->nchars, s->grow ? "+NUL" : "", slice, s->nslices, n, nfull);
+    vex_closure(wide ? &w_model : &n_model, 0x100 * (s->maxlen * 16 + s->nchars * 2 + s->grow) + s->variant * 2 + wide, al, n, s->max_states, 60, &r);
     if (vrt_verbose) vrt_log("closure: states %llu transitions %llu replayed %llu depth %llu closed %d\n", (unsigned long long)r.states,
                              (unsigned long long)r.transitions, (unsigned long long)r.applied, (unsigned long long)r.maxdepth, r.closed);
     VRT_COUNT_N("closure.states", r.states);
@@ -371,6 +381,7 @@ static void run_closure(int ci)
     VRT_MAX("max.closure.states-per-scope", r.states);
     if (r.closed) VRT_COUNT("closure.scopes-closed"); else VRT_COUNT("closure.scopes-capped");
     if (wide) VRT_COUNT("closure.wide"); else VRT_COUNT("closure.narrow");
+    if (s->variant) VRT_COUNT("closure.charset-extremes");
     g_maxlen = SIZE_MAX; g_allow_grow = 1;
 }
 
@@ -382,13 +393,15 @@ static int nmatrix;
 static void run_matrix(int mi)
 {
     const int wide = mi & 1, lowcap = (mi >> 1) % NCAPMODES;
-    const int sc = (mi / (2 * NCAPMODES)) % SC_N, kind = 1 + mi / (2 * NCAPMODES * SC_N);
+    const int sc = (mi / (2 * NCAPMODES)) % SC_N, kind = 1 + (mi / (2 * NCAPMODES * SC_N)) % (K_NKINDS - 1);
+    const int variant = mi / (2 * NCAPMODES * SC_N * (K_NKINDS - 1));
     int p, c, a, osc, made;
     uint64_t cells = 0;
     int (*apply)(uint32_t, int) = wide ? w_apply : n_apply;
 
     g_maxlen = SIZE_MAX; g_allow_grow = 1; g_refcap = 200;
-    vrt_case_note("matrix %s op=%s class=%d cap=%s", wide ? "wide" : "narrow", kname[kind], sc, lowcap ? "lowered" : "standard");
+    n_set_variant(variant); w_set_variant(variant);
+    vrt_case_note("matrix %s charset=%d op=%s class=%d cap=%s", wide ? "wide" : "narrow", variant, kname[kind], sc, lowcap ? "lowered" : "standard");
     for (p = 0; p < P_NCODES; p++) for (c = 0; c < C_NCODES; c++) for (a = 0; a < 12; a++) for (osc = 0; osc < 3; osc++) {
         int haspos = 0, hascnt = 0, naux = 1, useso = 0;
         switch (kind) {
@@ -432,6 +445,7 @@ static void run_matrix(int mi)
     VRT_COUNT_N("matrix.cells", cells);
     if (lowcap) VRT_COUNT_N("matrix.cells.lowered-cap", cells);
     if (wide) VRT_COUNT("matrix.cases.wide"); else VRT_COUNT("matrix.cases.narrow");
+    if (variant) VRT_COUNT_N("matrix.cells.charset-extremes", cells);
 }
 
 /* ------------------------------------------------------------------ */
@@ -496,7 +510,8 @@ static void run_random(uint64_t idx)
     nchars = 1 + vrt_below(&g, 3);
     nops = vrt_thorough ? 1500 : 1000;
     g_maxlen = SIZE_MAX; g_allow_grow = 1; g_refcap = 2 * softmax + 64;
-    vrt_case_note("random %s softmax=%zu chars=%d ops=%d", wide ? "wide" : "narrow", softmax, nchars, nops);
+    n_set_variant((int)((idx >> 4) & 1)); w_set_variant((int)((idx >> 4) & 1));
+    vrt_case_note("random %s charset=%d softmax=%zu chars=%d ops=%d", wide ? "wide" : "narrow", (int)((idx >> 4) & 1), softmax, nchars, nops);
     if (wide) w_create(0); else n_create(0);
     for (i = 0; i < nops; i++) {
         const int d = vrt_below(&g, 2), r = vrt_below(&g, 100);
@@ -569,6 +584,7 @@ static void run_random(uint64_t idx)
     vrt_sig(0, vrt_mix(wide ? w_sig() : n_sig(), idx));
     if (wide) w_destroy(); else n_destroy();
     VRT_COUNT("random.histories");
+    if ((idx >> 4) & 1) VRT_COUNT("random.histories.charset-extremes");
     if (wide) VRT_COUNT("random.histories.wide"); else VRT_COUNT("random.histories.narrow");
 }
 
@@ -588,7 +604,7 @@ static uint64_t ncases(void)
     else { scopes = quick_scopes; nscopes = sizeof(quick_scopes) / sizeof(scopes[0]); }
     nclosure = 0;
     for (k = 0; k < nscopes; k++) nclosure += 2 * scopes[k].nslices;
-    nmatrix = 2 * NCAPMODES * SC_N * (K_NKINDS - 1);
+    nmatrix = 2 * NCAPMODES * SC_N * (K_NKINDS - 1) * NVARIANTS;
     return (uint64_t)nclosure + nmatrix + nrandom();
 }
 static void run_case(uint64_t idx)
@@ -631,6 +647,8 @@ static const char *const required[] = {
     "reserve.unsatisfiable.quiet-no-op", "reserve.on-never-allocated", "resize.grew.embedded-nul",
     "audit.object.embedded-nul", "audit.never-allocated", "insert.zero-length.never-allocated",
     "find_ch.nul.libc-points-at-terminator", "audit.query-sweeps",
+    "compare.first-chars-differ-in-sign", "find_ch.negative-char.found", "find_str.needle-with-negative-char.found",
+    "closure.charset-extremes", "matrix.cells.charset-extremes", "random.histories.charset-extremes",
     "closure.states", "matrix.cells", "random.histories.narrow", "random.histories.wide", NULL
 };
 static const struct vrt_harness H = { "string", ncases, run_case, winit, NULL, required, 16 };
